@@ -184,12 +184,6 @@ theorem eof_iff_clean_close (c : CodecFns) (h : Header) (wops : List (Op Byte)) 
         rw [hf, hasEOF_append_marker] at this
         cases this
 
-/-- With the writer's default header and a codec within zlib's deflateBound, Close returns nil for every
-script: no block is ever refused (the role of `compressBound(BlockSize) ≤ MaxBlockSize`, bgzf.go:36-44). -/
-theorem default_header_clean_close (c : CodecFns) (hb : Bounded c) (wops : List (Op Byte)) (hclose : hasClose wops = true) :
-    (output c {} wops).2 = none :=
-  default_output_ok c hb wops hclose
-
 /-! ### a writer that is never closed -/
 
 /-- what the emitter has handed to the underlying writer once it is at rest, for a script without Close: the
@@ -241,6 +235,12 @@ theorem open_stream (c : Codec) (h : Header) (hx : WFExtra h) (wops : List (Op B
   · rintro ⟨front, hf⟩
     rw [hf, hasEOF_append_marker] at hno
     cases hno
+
+/-- With the writer's default header and a codec within zlib's deflateBound, Close returns nil for every
+script: no block is ever refused (the role of `compressBound(BlockSize) ≤ MaxBlockSize`, bgzf.go:36-44). -/
+theorem default_header_clean_close (c : CodecFns) (hb : Bounded c) (wops : List (Op Byte)) (hclose : hasClose wops = true) :
+    (output c {} wops).2 = none :=
+  default_output_ok c hb wops hclose
 
 /-! ### the defect of the unrepaired search, pinned -/
 
